@@ -421,6 +421,400 @@ def alias_cases(ctx, r, lines, expect, speclines, meta):
     ctx.tick('alias object histories', ctx.scale(300, 3000))
 
 
+# ---------------------------------------------------------------- round 7: the whole alphabet over OBJECTS, mixins, odd labels
+
+def plain(c):
+    """the plain label of a canonical form of `canon_py`"""
+    return tuple(plain(x) for x in c[1:]) if c[0] == 't' else c[1]
+
+
+def dedup(xs):
+    out = []
+    for x in xs:
+        if x not in out:
+            out.append(x)
+    return out
+
+
+def object_cases(ctx, r, lines, expect, speclines, meta, cls=Variables, n_hist=None):
+    """object-level histories over the WHOLE alphabet (`_extend`, copy three ways, pickle, deepcopy, slicing next to the
+    mutators) with stored aliases: the stored OBJECTS (type and value) of the real Variables vs the object-level model
+    (`khist3`), the labels vs the plain list; then the inherited `abc.Set` / `abc.Sequence` mixin methods (`kmix`)."""
+    T = alias_table()
+    flat = [o for o in T if not isinstance(o, tuple)]
+    notnp = [o for o in T if not is_np(o) and not any(is_np(y) for y in (o if isinstance(o, tuple) else ()))]
+
+    def emit(line, exp, what):
+        lines.append(line); expect.append(exp); speclines.append(None); meta.append((what, (line,)))
+
+    def objs_of(v):
+        return ','.join(pk(x) for x in v)
+
+    n_hist = n_hist or ctx.scale(260, 2600)
+    for _ in range(n_hist):
+        pool = flat if r.random() < .6 else notnp     # NumPy scalars never meet tuples (DESIGN D23)
+        v = cls(); ref = []; toks = []; flags = ''
+        code = ['import copy, pickle', 'import numpy as np', 'from dimod.variables import Variables', 'v = Variables()']
+
+        def same(c):
+            return [x for x in pool if canon_py(x) == canon_py(c)] or [c]
+
+        for _ in range(r.randint(1, 9)):
+            k = r.choice(['+', '?', '~', 'E', 'E', 'E', 'C', 'K', 'D', 'S', 'S', 'p', 'x', 'R', 'r', 'c'] if ref else ['+', '?', '~', 'E', 'E', 'C', 'K', 'D', 'S', 'p'])
+            newv = None
+            if k in '+?':
+                o = r.choice(pool); toks.append(k + pk(o)); src = f'v._append({rp(o)}, permissive={k == "?"})'
+                want = canon_py(o) not in ref or k == '?'
+                if canon_py(o) not in ref:
+                    ref.append(canon_py(o))
+                call = lambda: v._append(o, permissive=(k == '?'))  # noqa: E731
+            elif k == '~':
+                toks.append('+~'); src = 'v._append()'; n = len(ref)
+                if ('i', n) in ref:
+                    n = 0
+                    while ('i', n) in ref:
+                        n += 1
+                ref.append(('i', n)); want = True; call = lambda: v._append()  # noqa: E731
+            elif k == 'E':
+                perm = r.random() < .5
+                items = [None if r.random() < .15 else (r.choice(same(r.choice(list(v)))) if len(v) and r.random() < .3 else r.choice(pool))
+                         for _ in range(r.randint(0, 4))]
+                how = r.randrange(3)   # a list, a one-shot generator, a tuple
+                toks.append(f'E{int(perm)}:' + '|'.join('~' if o is None else pk(o) for o in items))
+                src = f'v._extend({["", "iter(", "tuple("][how]}{rp(items)}{["", ")", ")"][how]}, permissive={perm})'
+                want = True
+                for o in items:
+                    if o is None:
+                        n = len(ref)
+                        if ('i', n) in ref:
+                            n = 0
+                            while ('i', n) in ref:
+                                n += 1
+                        ref.append(('i', n))
+                    elif canon_py(o) in ref:
+                        if not perm:
+                            want = False
+                            break
+                    else:
+                        ref.append(canon_py(o))
+                arg = [items, iter(items), tuple(items)][how]
+                call = lambda: v._extend(arg, permissive=perm)  # noqa: E731
+            elif k == 'C':
+                how = r.randrange(4)
+                toks.append('C'); src = ['v = v.copy()', 'v = copy.copy(v)', 'v = Variables(v)', 'v = type(v)(v)'][how]; want = True
+                call = [lambda: v.copy(), lambda: copy.copy(v), lambda: cls(v), lambda: type(v)(v)][how]
+                newv = True
+            elif k == 'K':
+                proto = r.randrange(2, pickle.HIGHEST_PROTOCOL + 1)
+                toks.append('K'); src = f'v = pickle.loads(pickle.dumps(v, protocol={proto}))'; want = True
+                call = lambda: pickle.loads(pickle.dumps(v, protocol=proto))  # noqa: E731
+                newv = True
+            elif k == 'D':
+                toks.append('D'); src = 'v = copy.deepcopy(v)'; want = True
+                call = lambda: copy.deepcopy(v)  # noqa: E731
+                newv = True
+            elif k == 'S':
+                a, b = (r.choice([None] + list(range(-7, 8))) for _ in range(2))
+                c = r.choice([None, None, 1, -1, 2, -2, 3, 0])
+                toks.append('S:' + ':'.join('-' if x is None else str(x) for x in (a, b, c)))
+                src = f'v = v[slice({a}, {b}, {c})]'; want = c != 0
+                if want:
+                    ref = ref[slice(a, b, c)]
+                call = lambda: v[slice(a, b, c)]  # noqa: E731
+                newv = True
+            elif k == 'p':
+                toks.append('p'); src = 'v._pop()'; want = bool(ref)
+                if ref:
+                    ref.pop()
+                call = lambda: v._pop()  # noqa: E731
+            elif k == 'x':
+                o = r.choice(pool) if r.random() < .4 else r.choice(same(r.choice(list(v))))
+                toks.append('x' + pk(o)); src = f'v._remove({rp(o)})'
+                want = canon_py(o) in ref
+                if want:
+                    ref.remove(canon_py(o))
+                call = lambda: v._remove(o)  # noqa: E731
+            elif k == 'R':
+                cur = list(v)
+                ks = [r.choice(same(c)) for c in r.sample(cur, min(len(cur), r.randint(0, 3)))]
+                ks += [r.choice(pool) for _ in range(r.randint(0, 1))]
+                if r.random() < .4 and len(ks) > 1:
+                    mp = {ks[i]: r.choice(same(ks[(i + 1) % len(ks)])) for i in range(len(ks))}
+                else:
+                    mp = {a: r.choice(pool) for a in ks}
+                toks.append('R:' + '|'.join(f'{pk(a)}>{pk(b)}' for a, b in mp.items()))
+                src = 'v._relabel({' + ', '.join(f'{rp(a)}: {rp(b)}' for a, b in mp.items()) + '})'
+                cm = {canon_py(a): canon_py(b) for a, b in mp.items()}
+                news = list(cm.values())
+                want = len(set(news)) == len(news) and all(not (n in ref and n not in cm) for n in news)
+                if want:
+                    ref = [cm.get(x, x) for x in ref]
+                call = lambda: v._relabel(mp)  # noqa: E731
+            elif k == 'r':
+                toks.append('r'); src = 'v._relabel_as_integers()'; ref = [('i', i) for i in range(len(ref))]; want = True
+                call = lambda: v._relabel_as_integers()  # noqa: E731
+            else:
+                toks.append('c'); src = 'v._clear()'; ref = []; want = True; call = lambda: v._clear()  # noqa: E731
+            code.append(f'try: {src}\nexcept (ValueError, IndexError): pass')
+            ok = True; before = objs_of(v)
+            try:
+                res = call()
+            except (ValueError, IndexError):
+                ok = False
+            if ok and newv:
+                if k != 'S' and (objs_of(res) != before or res is v):
+                    ctx.fail('property', 'Variables.copy', 'copy / pickle / deepcopy of stored aliases', f'after {code[4:-1]}: `{src}` holds {list(res)!r}, the original {list(v)!r} (same object: {res is v})',
+                             repro='\n'.join(code[:-1]) + f'\nw = v\n{src}\nassert v is not w and [(type(a), a) for a in v] == [(type(a), a) for a in w]')
+                    return
+                v = res
+            flags += str(int(ok))
+            ctx.tick('obj3 ' + {'+': 'append', '?': 'append', '~': 'auto', 'E': 'extend', 'C': 'copy', 'K': 'pickle', 'D': 'deepcopy', 'S': 'slice', 'p': 'pop', 'x': 'remove', 'R': 'relabel', 'r': 'relabel_ints', 'c': 'clear'}[k] + ('' if ok else ' (raises)'))
+            if ok != want or [canon_py(x) for x in v] != ref or len(v) != len(ref):
+                ctx.fail('property', 'Variables.objects', 'history over alias objects (whole alphabet)', f'after {code[4:]}: list(v)={list(v)!r}, last call raised={not ok}; labels should be {[plain(c) for c in ref]!r}, list accepts the last call={want}',
+                         repro='\n'.join(code[:-1]) + f'\n_ok = True\ntry: {src}\nexcept (ValueError, IndexError): _ok = False\nassert _ok == {want} and list(v) == {[plain(c) for c in ref]!r}')
+                return
+        ctx.case(('khist3', tuple(toks)), nontrivial=len(v) > 0)
+        emit('khist3 ' + (','.join(toks) or '-'), f"ok {flags} {state(v)} {objs_of(v)}", 'object:khist3')
+        # ---- mixins on the reached object
+        if r.random() < .7:
+            o = [r.choice(same(c)) for c in r.sample(list(v), min(len(v), r.randint(0, 3)))] + [r.choice(pool) for _ in range(r.randint(0, 3))]
+            r.shuffle(o)
+            if r.random() < .2:
+                o = [r.choice(same(x)) for x in v]    # an alias copy of v itself: == / <= / >= true
+            ov = cls(o); od = list(ov)
+            co = [canon_py(x) for x in o]; cod = dedup(co)
+            subr = [c for c in ref if c not in co]
+            want = dict(rev=ref[::-1], dj=not any(c in ref for c in co), le=set(ref) <= set(cod), lt=set(ref) < set(cod), ge=set(ref) >= set(cod),
+                        gt=set(ref) > set(cod), and_=dedup([c for c in co if c in ref]), or_=dedup(ref + co), sub=subr,
+                        xor=dedup(subr + [c for c in cod if c not in ref]), eqseq=ref == co, eqset=set(ref) == set(cod),
+                        rsub=[c for c in cod if c not in ref], ror=dedup(ref + co), rand=dedup([c for c in co if c in ref]), rxor=dedup(subr + [c for c in cod if c not in ref]), neseq=ref != co)
+            hdr = '\n'.join(code) + f'\no = {rp(o)}\n'
+            try:
+                gotr = dict(rev=list(reversed(v)), dj=v.isdisjoint(o), le=v <= ov, lt=v < ov, ge=v >= ov, gt=v > ov, and_=v & o, or_=v | o,
+                            sub=v - o, xor=v ^ o, eqseq=(v == o), eqset=(v == frozenset(od)),
+                            rsub=o - v, ror=o | v, rand=o & v, rxor=o ^ v, neseq=(v != o))
+            except Exception as e:  # noqa
+                ctx.fail('property', 'Variables.mixins', 'a mixin method raised', f'v={list(v)!r}, other={o!r}: {type(e).__name__}: {e}',
+                         repro=hdr + 'ov = Variables(o)\nlist(reversed(v)); v.isdisjoint(o); v <= ov; v < ov; v >= ov; v > ov; v & o; v | o; v - o; v ^ o; v == o; v == frozenset(ov)')
+                return
+            exprs = dict(rev='list(reversed(v))', dj='v.isdisjoint(o)', le='v <= Variables(o)', lt='v < Variables(o)', ge='v >= Variables(o)', gt='v > Variables(o)',
+                         and_='v & o', or_='v | o', sub='v - o', xor='v ^ o', eqseq='v == o', eqset='v == frozenset(Variables(o))',
+                         rsub='o - v', ror='o | v', rand='o & v', rxor='o ^ v', neseq='v != o')
+            for key, w in want.items():
+                g = gotr[key]
+                gg = [canon_py(x) for x in g] if isinstance(w, list) else g
+                if gg != w or (key in ('and_', 'or_', 'sub', 'xor', 'rsub', 'ror', 'rand', 'rxor') and (not isinstance(g, Variables) or len(g) != len(w))):
+                    wtxt = [plain(c) for c in w] if isinstance(w, list) else w
+                    ctx.fail('property', 'Variables.mixins', exprs[key].replace('Variables(o)', 'other').replace(' o', ' other'), f'v={list(v)!r}, o={o!r}: {exprs[key]} is {list(g) if isinstance(w, list) else g!r}, the list / set of labels says {wtxt!r}',
+                             repro=hdr + (f'assert list({exprs[key]}) == {wtxt!r}' if isinstance(w, list) else f'assert ({exprs[key]}) == {w!r}'))
+                    return
+            ctx.case(('kmix', tuple(toks), tuple(pk(x) for x in o)), nontrivial=bool(o) and len(v) > 0)
+            ctx.tick('mixins')
+            b = lambda x: str(int(bool(x)))  # noqa: E731
+            emit(f"kmix {','.join(toks) or '-'} {','.join(pk(x) for x in o) or '-'} {','.join(pk(x) for x in od) or '-'}",
+                 f"ok rev={objs_of(gotr['rev'])} dj={b(gotr['dj'])} le={b(gotr['le'])} lt={b(gotr['lt'])} ge={b(gotr['ge'])} gt={b(gotr['gt'])} "
+                 f"and={objs_of(gotr['and_'])} or={objs_of(gotr['or_'])} sub={objs_of(gotr['sub'])} xor={objs_of(gotr['xor'])} "
+                 f"eqseq={b(gotr['eqseq'])} eqset={b(gotr['eqset'])} rsub={objs_of(gotr['rsub'])} ror={objs_of(gotr['ror'])} neseq={b(gotr['neseq'])}", 'object:kmix')
+            # the remaining readers of the class on the same object (judged against the list)
+            q = r.choice(same(r.choice(list(v)))) if len(v) and r.random() < .6 else r.choice(pool)
+            inq = canon_py(q) in ref
+            if (bool(v.count(q)) != inq or (q in v) != inq or (inq and v.index(q) != ref.index(canon_py(q))) or v.is_range != (ref == [('i', i) for i in range(len(ref))])
+                    or v._is_range() != v.is_range or len(v) != len(ref) or (len(v) and canon_py(v[-1]) != ref[-1]) or [canon_py(x) for x in copy.copy(v)] != ref):
+                ctx.fail('property', 'Variables.mixins', 'count / in / index / is_range / len / v[-1] / copy.copy after a history', f'v={list(v)!r}, q={q!r}: count={v.count(q)}, in={q in v}, is_range={v.is_range}; labels {[plain(c) for c in ref]!r}',
+                         repro=hdr + f'q = {rp(q)}\nL = {[plain(c) for c in ref]!r}\nassert bool(v.count(q)) == {inq} and (q in v) == {inq} and v.is_range == (L == list(range(len(L)))) and len(v) == len(L)')
+                return
+    ctx.tick('object histories (whole alphabet)', n_hist)
+
+
+def odd_label_cases(ctx, r):
+    """labels outside the alias model, judged against the plain list only (no model line): non-integral floats and their
+    NumPy / Fraction aliases are labels of their own (1.5 is neither 1 nor 2); `nan` / `inf` (not self-equal / not
+    convertible by `int()`) are REFUSED by every entry point with the state unchanged."""
+    import fractions
+    fl0 = [0.5, 1.5, 2.5, -1.5, np.float64(1.5), np.float32(0.5), fractions.Fraction(3, 2), fractions.Fraction(5, 2), 0.25, 1, 2, 1.0, 'a', 0, (1.5, 'a'), (1.5,)]
+
+    def cf(o):
+        if isinstance(o, tuple):
+            return ('t',) + tuple(cf(x) for x in o)
+        if isinstance(o, str):
+            return ('s', o)
+        return ('q', o if isinstance(o, fractions.Fraction) else fractions.Fraction(int(o)) if isinstance(o, (int, np.integer)) else fractions.Fraction(float(o)))
+    for _ in range(ctx.scale(150, 1500)):
+        v = Variables(); ref = []; code = ['import fractions', 'import numpy as np', 'from dimod.variables import Variables', 'v = Variables()']
+        fl = [x for x in fl0 if not is_np(x)] if r.random() < .5 else [x for x in fl0 if not isinstance(x, tuple)]   # NumPy scalar == tuple: DESIGN D23
+        for _ in range(r.randint(1, 8)):
+            k = r.choice('+?pxq')
+            o = r.choice(fl)
+            if k in '+?':
+                src = f'v._append({rp(o)}, permissive={k == "?"})'; want = cf(o) not in ref or k == '?'
+                if cf(o) not in ref:
+                    ref.append(cf(o))
+                call = lambda: v._append(o, permissive=(k == '?'))  # noqa: E731
+            elif k == 'p':
+                src = 'v._pop()'; want = bool(ref)
+                if ref:
+                    ref.pop()
+                call = lambda: v._pop()  # noqa: E731
+            elif k == 'x':
+                src = f'v._remove({rp(o)})'; want = cf(o) in ref
+                if want:
+                    ref.remove(cf(o))
+                call = lambda: v._remove(o)  # noqa: E731
+            else:
+                n = r.choice(fl)
+                src = f'v._relabel({{{rp(o)}: {rp(n)}}})'
+                want = not (cf(n) in ref and cf(n) != cf(o))
+                if want and cf(o) in ref:
+                    ref[ref.index(cf(o))] = cf(n)
+                call = lambda: v._relabel({o: n})  # noqa: E731
+            code.append(f'try: {src}\nexcept (ValueError, IndexError): pass')
+            ok = True
+            try:
+                call()
+            except (ValueError, IndexError):
+                ok = False
+            q = r.choice(fl)
+            facts = ([cf(x) for x in v] == ref and len(v) == len(ref) and ok == want and bool(v.count(q)) == (cf(q) in ref) and (q in v) == (cf(q) in ref)
+                     and (cf(q) not in ref or v.index(q) == ref.index(cf(q))) and all(v.index(x) == i for i, x in enumerate(v)))
+            ctx.case(('odd', tuple(code[4:])), nontrivial=bool(ref))
+            if not facts:
+                ctx.fail('property', 'Variables.objects', 'non-integral number labels', f'after {code[4:]}: list(v)={list(v)!r} (last call raised={not ok}), count({q!r})={v.count(q)}; the list of labels is {[c[1:] for c in ref]!r}, accepts the last call={want}',
+                         repro='\n'.join(code[:-1]) + f'\n_ok = True\ntry: {src}\nexcept (ValueError, IndexError): _ok = False\nL = {[str(c[1]) if c[0] == "q" else repr(c) for c in ref]!r}\n'
+                               f'assert _ok == {want} and len(v) == len(L) and all(v.index(x) == i for i, x in enumerate(v)) and bool(v.count({rp(q)})) == {cf(q) in ref}')
+                return
+    ctx.tick('non-integral number labels', ctx.scale(150, 1500))
+    # nan / inf: refused, nothing changes
+    for bad in (float('nan'), float('inf'), -float('inf'), np.float64('nan'), np.float32('inf')):
+        for start in ([], [0, 1], ['a', 1.5, 0]):
+            v = Variables(start); before = v.__reduce__()[2][:3]
+            for name, call in (('_append', lambda: v._append(bad)), ('_append(permissive)', lambda: v._append(bad, permissive=True)), ('_extend', lambda: v._extend([bad])),
+                               ('count', lambda: v.count(bad)), ('in', lambda: bad in v), ('index', lambda: v.index(bad)), ('index(permissive)', lambda: v.index(bad, permissive=True)),
+                               ('Variables([x])', lambda: Variables(start + [bad])), ('_remove', lambda: v._remove(bad))):
+                raised = None
+                try:
+                    call()
+                except (ValueError, OverflowError) as e:
+                    raised = type(e).__name__
+                after = v.__reduce__()[2][:3]
+                ctx.case(('nan', name, repr(bad), repr(start)), nontrivial=True)
+                if raised is None or after != before:
+                    ctx.fail('property', 'Variables.objects', 'nan / inf label', f'Variables({start!r}).{name}({bad!r}): raised {raised}, state before {before!r} after {after!r}: a label that is not self-equal / not a number with an integer test must be refused without changing anything',
+                             repro=f'import numpy as np\nfrom dimod.variables import Variables\nv = Variables({start!r}); s = v.__reduce__()[2][:3]\ntry:\n    v._append({rp(bad) if is_np(bad) else "float(" + repr(str(bad)) + ")"})\n    raise AssertionError("accepted")\nexcept (ValueError, OverflowError): pass\nassert v.__reduce__()[2][:3] == s')
+                    return
+    ctx.tick('nan/inf refused')
+    # unhashable objects: never a label (count 0, `in` False, index / _remove ValueError, _append TypeError, _relabel to one ValueError), nothing changes
+    for bad in ([1], {1}, {'a': 1}, ([1],)):
+        for start in ([], [0, 1], ['a', 5, 0]):
+            v = Variables(start); before = v.__reduce__()[2][:3]
+            facts = []
+            for name, call, want in (('count', lambda: v.count(bad), 0), ('in', lambda: bad in v, False), ('index', lambda: v.index(bad), 'ValueError'),
+                                     ('_remove', lambda: v._remove(bad), 'ValueError'), ('_append', lambda: v._append(bad), 'TypeError'),
+                                     ('_append(permissive)', lambda: v._append(bad, permissive=True), 'TypeError'),
+                                     ('_relabel(value)', lambda: v._relabel({(start or [0])[0]: bad}), 'ValueError')):
+                try:
+                    got = call()
+                except Exception as e:  # noqa
+                    got = type(e).__name__
+                facts.append((name, got, want, v.__reduce__()[2][:3] == before))
+            ctx.case(('unhashable', repr(bad), repr(start)), nontrivial=True)
+            wrong = [f for f in facts if f[1] != f[2] or not f[3]]
+            if wrong:
+                ctx.fail('property', 'Variables.objects', 'unhashable object', f'Variables({start!r}) with {bad!r}: (call, outcome, expected, state unchanged) = {wrong}',
+                         repro=f'from dimod.variables import Variables\nv = Variables({start!r}); s = v.__reduce__()[2][:3]\nassert v.count({bad!r}) == 0 and ({bad!r} in v) is False\ntry:\n    v._append({bad!r})\n    raise AssertionError("accepted")\nexcept TypeError: pass\nassert v.__reduce__()[2][:3] == s')
+                return
+    ctx.tick('unhashable refused')
+
+
+# ---------------------------------------------------------------- round 7: which methods of the class the generators really call
+
+import collections as _collections
+import importlib.util as _ilu
+import os as _os
+import re as _re
+
+HITS = _collections.Counter()
+
+
+class Rec(Variables):
+    """a recording subclass: every attribute fetched from an instance and every special method the interpreter looks up
+    on the type is counted in HITS (wrappers installed by `install_recorders`)"""
+    def __getattribute__(self, name):
+        HITS[name] += 1
+        return super().__getattribute__(name)
+
+
+def install_recorders(names):
+    for name in names:
+        if not (name.startswith('__') and name.endswith('__')) or name in ('__getattribute__', '__class__', '__new__'):
+            continue
+        orig = None
+        for k in Variables.__mro__:
+            if name in vars(k):
+                orig = vars(k)[name]
+                break
+        if orig is None or not callable(orig):
+            continue
+
+        def mk(name, orig):
+            def w(self, *a, **kw):
+                HITS[name] += 1
+                return orig(self, *a, **kw)
+            w.__name__ = name
+            return w
+        setattr(Rec, name, mk(name, orig))
+
+
+def method_coverage(ctx, r):
+    """the method set of the class is read from the SOURCE under test by harness/translators/vars_methods.py; the object-level
+    generators are run once more on the recording subclass and every method that is not declared out of scope in
+    lean/DimodModel/VarsAlphabet.lean must have been reached (cdef methods: through a reached method whose body calls them)."""
+    here = _os.path.dirname(_os.path.dirname(_os.path.abspath(__file__)))
+    spec = _ilu.spec_from_file_location('vars_methods', _os.path.join(here, 'translators', 'vars_methods.py'))
+    vm = _ilu.module_from_spec(spec); spec.loader.exec_module(vm)
+    cy, py, _bases, mix = vm.extract()
+    names = [n for n, _ in cy] + [n for n, _ in py] + list(mix)
+    alpha = open(_os.path.join(_os.path.dirname(here), 'lean', 'DimodModel', 'VarsAlphabet.lean')).read()
+    oos = set(_re.findall(r'\("([^"]+)",', alpha.split('def outOfScope')[1].split('def covers')[0]))
+    modelled = set(_re.findall(r'\("([^"]+)",', alpha.split('def modelled')[1].split('def outOfScope')[0]))
+    install_recorders(names)
+    HITS.clear()
+    sink = ([], [], [], [])
+    object_cases(ctx, r, *sink, cls=Rec, n_hist=ctx.scale(80, 400))
+    # entry points that object_cases does not use: the range constructor, len / indexing / != / properties
+    w = Rec(range(4)); w._append('a'); len(w); w[0]; w[1:]; w != [0]; w.is_range; w._is_range(); w.index('a'); w.count('a'); 'a' in w; copy.copy(w); list(iter(w))
+    Rec(w)
+    # the pickle hooks under their Cython names (pickle itself goes through the aliases `__reduce__` / `__setstate__`)
+    st = w.__reduce_cython__()[2]
+    w2 = Rec(); w2.__setstate_cython__(st)
+    if list(w2) != list(w) or w2.__reduce__()[2][:3] != w.__reduce__()[2][:3]:
+        ctx.fail('property', 'Variables.pickle', '__setstate_cython__(__reduce_cython__ state)', f'state {st!r} set on a fresh object gives {list(w2)!r}, the original is {list(w)!r}',
+                 repro="from dimod.variables import Variables\nw = Variables(range(4)); w._append('a')\nw2 = Variables(); w2.__setstate_cython__(w.__reduce_cython__()[2])\nassert list(w2) == list(w)")
+    pyx = open(_os.path.join(vm.SRC, 'cyvariables.pyx')).read()
+    kinds = dict(cy)
+    missing = []
+    for n in names:
+        if n in oos:
+            continue
+        hit = HITS[n] > 0
+        if not hit and kinds.get(n) == 'cdef':
+            # reached through a Python-visible method whose block calls `self.<n>(`
+            for m, kd in cy:
+                if kd != 'cdef' and HITS[m] > 0:
+                    blk = _re.search(r'^    (?:cpdef|def)\b[^\n]*\b' + _re.escape(m) + r'\s*\(.*?(?=^    (?:cpdef|cdef|def)\b|\Z)', pyx, flags=_re.M | _re.S)
+                    if blk and _re.search(r'\bself\.' + _re.escape(n) + r'\(', blk.group(0)):
+                        hit = True
+                        break
+        ctx.tick(f'method {n}' + ('' if hit else ' (NOT REACHED)'), HITS[n] or int(hit))
+        if not hit:
+            missing.append(n)
+        elif n not in modelled:
+            missing.append(n + ' [not in the model alphabet]')
+    if missing:
+        ctx.fail('correspondence', 'Variables alphabet', 'a method of the class is outside the exercised / modelled alphabet',
+                 f'methods of cyVariables / Variables (from the source) that no generator reaches or the model alphabet does not list: {missing}',
+                 detail=dict(missing=missing))
+
+
 def slice_table(ctx, lines, expect, speclines, meta, errcls):
     """`Variables(l)[slice]` against CPython list slicing and the compiled model, exhaustively over
     n = 0..4 labels x start, stop in {None, -6..6} x step in {None, 0, +-1, +-2, +-3}"""
@@ -681,6 +1075,9 @@ def run(ctx):
         sweep(ctx, lines, expect, speclines, meta)
     slice_table(ctx, lines, expect, speclines, meta, errcls)
     alias_cases(ctx, r, lines, expect, speclines, meta)
+    object_cases(ctx, r, lines, expect, speclines, meta)
+    odd_label_cases(ctx, r)
+    method_coverage(ctx, r)
     got = run_driver('varsdriver', lines)
     ctx.corr_lines += len(lines)
     for i, ln in enumerate(lines):
